@@ -7,6 +7,7 @@ flock 9
 export VERIF_IN_SEEDTEST=1
 cd /repo || exit 2
 if [ -n "$(git status --porcelain --untracked-files=no)" ]; then echo "/repo not clean"; exit 2; fi
+sleep 1   # (cargo decides by modification times what to rebuild)
 git apply "$patch" || { echo "patch does not apply"; exit 2; }
 rm -rf /tmp/evidence_backup && cp -r /verif/evidence /tmp/evidence_backup
 # (after the revert the harness is rebuilt, so that probe / drive are not left over from the seeded tree)
